@@ -67,6 +67,12 @@ def run(prop, tier, seed, replay=None):
                        "plus free-running rounds (%d operations)" % calls,
                "samples": [sample], "probes_other_blocked_while_held": stat["blocked"], "stress_rounds": stat["stress"], "lockorder_states": states, "bad": len(bad),
                "checker_cmd": "tlc LockOrder.tla (deadlock check); harness lock-probe; tlc LockTrace.tla"}
+        # teardown / entity removal parked inside its loops while messages of the same and of another peer are processed:
+        # both complete and the registries are those of a serial order (a skipped entity or entry shows there)
+        import pairs
+        pr = pairs.execute(prop, tier, seed, sc, topo, kinds="disconnect,entrem")
+        viol += pr["viol"]
+        cov["pair_probes"] = pr["cov"]
         write_evidence(prop, tier, seed, "exploration", cov, ASSUME, time.time() - t0, viol)
         log("[%s] %s: %d probes (%d parked, %d with the other operation blocked meanwhile), %d stress rounds, %d bad, %.1fs" % (prop, tier, stat["lines"] - stat["stress"], stat["parked"], stat["blocked"], stat["stress"], len(bad), time.time() - t0))
         return 1 if viol else 0
